@@ -404,6 +404,34 @@ pub fn describe(c: &SimCase) -> Vec<String> {
     l
 }
 
+
+/// the three filtered runs against the projections of the unfiltered run without a length bound
+fn check_projections(c: &SimCase, cu: &SimCase, out: &mut Vec<Finding>) {
+    let c0 = SimCase { max_trace: 0, ..cu.clone() };
+    let full = match run_sim(&c0).out {
+        Ok(t) => t,
+        Err(m) => {
+            out.push(viol(format!("sim_advanced panicked: {}", m)));
+            return;
+        }
+    };
+    for (oc, on) in [(true, false), (false, true), (true, true)] {
+        let cf = SimCase { only_client: oc, only_network: on, ..c.clone() };
+        match run_sim(&cf).out {
+            Err(m) => out.push(viol(format!("filtered run panicked: {}", m))),
+            Ok(f) => {
+                let mut want = proj(&full, oc, on);
+                if cf.max_trace > 0 {
+                    want.truncate(cf.max_trace);
+                }
+                if f != want {
+                    out.push(viol(format!("only_client_events={} only_network_activity={}: the filtered trace ({} events) is not the projection of the unfiltered one ({} events)", oc, on, f.len(), want.len())));
+                }
+            }
+        }
+    }
+}
+
 pub fn monitor(prop: &str, c: &SimCase) -> Vec<Finding> {
     let mut out = vec![];
     let cu = unfiltered(c);
@@ -475,6 +503,8 @@ pub fn monitor(prop: &str, c: &SimCase) -> Vec<Finding> {
                     out.push(viol("sim() and sim_advanced() disagree".to_string()));
                 }
             }
+            // every combination of output filters shows the corresponding part of the same trace
+            check_projections(c, &cu, &mut out);
         }
         "C15" => {
             if tr.windows(2).any(|w| w[0].t > w[1].t) {
@@ -543,30 +573,7 @@ pub fn monitor(prop: &str, c: &SimCase) -> Vec<Finding> {
             if (cu.max_trace > 0 && tr.len() > cu.max_trace) || (cu.max_iter > 0 && tr.len() > cu.max_iter) {
                 out.push(viol(format!("trace of {} events exceeds the bounds max_trace_length={} max_sim_iterations={}", tr.len(), cu.max_trace, cu.max_iter)));
             }
-            // filters are projections: against the unfiltered run without a length bound
-            let c0 = SimCase { max_trace: 0, ..cu.clone() };
-            let full = match run_sim(&c0).out {
-                Ok(t) => t,
-                Err(m) => {
-                    out.push(viol(format!("sim_advanced panicked: {}", m)));
-                    return out;
-                }
-            };
-            for (oc, on) in [(true, false), (false, true), (true, true)] {
-                let cf = SimCase { only_client: oc, only_network: on, ..c.clone() };
-                match run_sim(&cf).out {
-                    Err(m) => out.push(viol(format!("filtered run panicked: {}", m))),
-                    Ok(f) => {
-                        let mut want = proj(&full, oc, on);
-                        if cf.max_trace > 0 {
-                            want.truncate(cf.max_trace);
-                        }
-                        if f != want {
-                            out.push(viol(format!("only_client_events={} only_network_activity={}: the filtered trace ({} events) is not the projection of the unfiltered one ({} events)", oc, on, f.len(), want.len())));
-                        }
-                    }
-                }
-            }
+            check_projections(c, &cu, &mut out);
         }
         _ => {}
     }
